@@ -46,20 +46,20 @@ CHECKS = {
    text="Sequences of up to 16 lifecycle events (clone of original/clone, drop, call, drop or call on another thread, verify(), report(), no_verify_in_drop(), delegated call creating the helper clone, make_ref holding a clone, caught mock-induced panic) over up to 6 instances; each step's outcome (silent, panic class, exit code) is compared with the model, which also counts that the original verifies at most once. A double panic aborts only the worker and is attributed to its sequence.",
    note="panic classes are recognised by the documented phrases (unknown wording is compared as panic/no panic only); report() on a clone is not generated"),
  "C10": dict(engine="E3 controlled scheduler (harness/rt/src/sched.rs)", cat="exploration", ref="§4 C10",
-   technique="schedule enumeration and schedule fuzzing of the real code: a token-passing scheduler driven by yield hooks at every atomic operation and lock acquisition; exhaustive depth-first enumeration for small thread configurations, proptest-generated choice sequences for larger ones, 16-thread stress; oracle = multiset of responses equals positions 1..N of the sequential reference model",
+   technique="schedule enumeration and schedule fuzzing of the real code: a token-passing scheduler driven by yield hooks at every atomic operation and lock acquisition; exhaustive depth-first enumeration for small thread configurations, proptest-generated choice sequences for larger ones, 16-thread stress; threads call through clones or one shared &Unimock, with and without the constructing thread itself taking part; oracle = multiset of responses equals positions 1..N of the sequential reference model",
    text="The real runtime runs on real OS threads, one at a time, the next thread being chosen at every yield point by a schedule (a Vec<u8>, which is also the replay file). All schedules of (threads x calls) in {(2,1),(2,2),(3,1),(2,3)} (thorough: also (3,2),(4,1)) are enumerated for an unordered response chain, an ordered sequence (as many slots as calls, and one fewer) and both mixed, each through clones and through one shared &Unimock handle; larger configurations are sampled; a 16-thread unsynchronised stress run repeats the oracle.",
    note="yield points exist only at unimock's own atomics and lock acquisitions (cfg unimock_verif); sequentially consistent interleavings only; std::sync::Mutex / Arc internals are trusted"),
  "C11": dict(engine="E4 fault table: worker thread + fresh child process per cell (harness/rt)", cat="fault_enumeration", ref="§4 C11",
    technique="fault enumeration: panic origin x instance topology x expectation state, every cell run on a thread of a crash-isolated worker and as the main thread of a fresh child process; oracle = exit status 101 (not SIGABRT), exactly one panic report, first message is the origin's",
    text="17 panic origins (test body before/between/after calls, matcher, answer, unmock function, default body, by-value default body, argument Debug, return-value Clone, 7 mock-induced kinds) x 11 instance topologies (original only, clone dropped before/after, clone alive on another thread, Rc/Arc/Box, foreign thread, helper clone alive, value chain holding a clone, call through a clone) x met/unmet x error recorded before: all 680 cells are executed both ways; the thread boundary / process must report exactly the original panic and must not abort.",
-   note="std feature, panic=unwind; usability after a caught user panic is decided by the C02/C08 histories (panicking answers and matchers followed by further calls)"),
+   note="std feature, panic=unwind; the second half of the property (usable after a caught user panic) is the exhaustive sub-check usable-after-caught-panic: 6 user-panic origins (matcher, answer, unmock function, default body, argument Debug, return-value Clone) x 5 ways of surviving the panic x 1-3 repeats x met / one call short; afterwards every pattern must answer again and verify() must reflect the matched counts"),
  "C12": dict(engine="E1 conservation check + E3 scheduler (harness/rt)", cat="exploration", ref="§4 C12",
    technique="property-based testing with an instrumented (drop- and clone-counting) value type: conservation oracle over generated request histories; exhaustive schedule enumeration for threads racing for one single-use value",
-   text="Generated histories request 1-6 configured values (non-Clone tokens alone, in Option/Poll, as owned leaves of mixed tuples and as owned Err of Result<&T,E>; Clone tokens via single-use path, n_times, each_call) 0-4 times each through original and clones: the first request must deliver exactly the configured leaves, later ones must panic, stored values must stay undropped while the mock lives, repeat-use deliveries must be clones of the stored original, and after teardown every value ever constructed must have been dropped exactly once. All schedules of 2-3 threads competing for one single-use value are enumerated.",
+   text="Generated histories request 1-6 configured values (non-Clone tokens alone, in Option/Poll, as owned leaves of mixed tuples, as owned Err of Result<&T,E>, and two or three levels down in Option<Result<&T,E>>, Poll<Result<..>>, Poll<Option<Result<..>>>, Vec<Result<&T,E>>, (Option<Result<&T,E>>,&T); Clone tokens via single-use path, n_times, each_call) 0-4 times each through original and clones: the first request must deliver exactly the configured leaves, later ones must panic, stored values must stay undropped while the mock lives, repeat-use deliveries must be clones of the stored original, and after teardown every value ever constructed must have been dropped exactly once. All schedules of 2-3 threads competing for one single-use value are enumerated.",
    note="the compile-time half (chains that must not type-check) is decided by the program-generation engine when present in the evidence (sub-check compile-fail); interleavings inside std::sync::Mutex are trusted"),
  "C13": dict(engine="value-chain shadow model in a crash-isolated worker (harness/rt)", cat="exploration", ref="§4 C13",
    technique="stateful property-based testing: generated lending sequences with a shadow list of (address, id, contents) and a drop registry; long-chain and multi-thread cases; crash-isolated worker with a small stack to expose recursive drops",
-   text="Phases of lending operations (make_ref of several types, answers using make_ref, returns()-configured borrows, borrows through the delegation helper, bursts) over original and clones, closed by make_mut / a make_mut-answered &mut return, then 2-8 threads lending through a shared &Unimock, then teardown: every reference held is re-read after every operation, addresses of make_ref values are pairwise distinct, nothing is dropped early, everything is dropped exactly once. Chains of 5k-51k values are dropped on a 256 KiB stack.",
+   text="Phases of lending operations (make_ref of several types, answers using make_ref, returns()-configured borrows, borrows through the delegation helper, bursts) over original and clones, closed by make_mut / a make_mut-answered &mut return / a provided &mut self method that lends nothing (nothing may be released) / a provided &mut self method whose body lends through the helper, then 2-8 threads lending through a shared &Unimock, then teardown: every reference held is re-read after every operation, addresses of make_ref values are pairwise distinct, nothing is dropped early, everything is dropped exactly once. Chains of 5k-51k values are dropped on a 256 KiB stack.",
    note="references are held in safe Rust; concurrent interleavings inside once_cell are real-thread stress only (not scheduled)"),
 
  "C05": dict(engine="E2 program generation (harness/progen)", cat="exploration", ref="§4 C05",
@@ -68,7 +68,7 @@ CHECKS = {
    note="shapes rustc rejects are outside the property's domain (counted in evidence; > 5% rejected = exit 2); generated values' Debug strings are the channel of observation"),
  "C06": dict(engine="E2 program generation (harness/progen)", cat="exploration", ref="§4 C06",
    technique="grammar-based generation of matching! patterns, exhaustive evaluation over a finite argument domain, oracle = own pattern interpreter cross-checked by a native Rust match in the generated program",
-   text="Each generated pattern (literals, ranges, wildcards, bindings, @-bindings, or-patterns, Option/tuple/struct/enum patterns, slice patterns with rest, string literals against &str/String/newtype, eq!/ne!, 1-3 alternatives, guards) is evaluated by the real mock on every tuple of the product domain (<= 300) in unordered (diagnostics off) and ordered (diagnostics on) mode; both truth tables must equal the interpreter's. The forms shown verbatim in the documentation must compile (a rejection there is a violation).",
+   text="Each generated pattern (literals, ranges, wildcards, bindings, @-bindings, or-patterns, Option/tuple/struct/enum patterns, slice patterns with rest, string literals against &str/String/newtype, eq!/ne!, 1-3 alternatives, guards written as a user writes them) is evaluated by the real mock on every tuple of the product domain (<= 300) in unordered (diagnostics off) and ordered (diagnostics on) mode; both truth tables must equal the interpreter's. The forms shown verbatim in the documentation must compile (a rejection there is a violation).",
    note="type-directed grammar: only patterns the macro accepts for the argument type are generated (rejections counted); rustc's match semantics trusted for the interpreter cross-check"),
  "C15": dict(engine="E2 program generation (harness/progen)", cat="exploration", ref="§4 C15",
    technique="grammar-based generation of default bodies (expression grammar) and mixed direct/delegated histories; oracle = generator-side inlining of the body",
@@ -76,7 +76,7 @@ CHECKS = {
    note="clause lists of run-time length use the DynClause hook; rejected shapes counted"),
  "C16": dict(engine="E2 program generation (harness/progen)", cat="exploration", ref="§4 C16",
    technique="grammar-based generation of unmock_with registrations (path / path(permuted params) / _) per method position, recording real functions, recursion through the mock",
-   text="Generated traits of 1-4 methods with individual registrations, &self/&mut self, sync/async/impl Future, resolved to the real implementation through partial fall-through (unmentioned / unmatched) or applies_unmocked(): exactly one invocation of the right function with self and the arguments in registered order, result returned unchanged, panic naming Trait::method when nothing is registered; recursive real functions (depth 0-6) call back into the same mock whose counted base-case pattern must verify.",
+   text="Generated traits of 1-4 required or provided (default body) methods with individual registrations, &self/&mut self, sync/async/impl Future, resolved to the real implementation through partial fall-through (unmentioned / unmatched) or applies_unmocked(): exactly one invocation of the right function with self and the arguments in registered order, result returned unchanged, panic naming Trait::method when nothing is registered; recursive real functions (depth 0-6) call back into the same mock whose counted base-case pattern must verify.",
    note="rejected shapes counted"),
  "C17": dict(engine="E2 program generation (harness/progen)", cat="exploration", ref="§4 C17",
    technique="grammar-based generation of return types and values, round-trip oracle (Debug rendering computed independently by the generator)",
@@ -84,7 +84,7 @@ CHECKS = {
    note="types outside the accepted families are not generated (calibrated on the unchanged tree; rejections counted)"),
  "C19": dict(engine="E2 program generation (harness/progen)", cat="exploration", ref="§4 C19",
    technique="grammar-based generation of method shapes x patterns x failing tuples; message-grammar oracle built from generator-known Debug strings, printed line numbers and the C06 interpreter",
-   text="For each generated pattern and shape (incl. non-Debug, reference-depth, &mut and generic parameters) every mock-induced error kind is triggered on a fresh mock; the message must render the call as Trait::method(args) from the generator's own Debug strings ('?' for non-Debug), name the pattern by location (file and the line the generator printed) and source text, and for guard-free single-alternative patterns list exactly the positions the interpreter rejects, each with the actual value.",
+   text="For each generated pattern and shape (incl. non-Debug, reference-depth, &mut and generic parameters) every mock-induced error kind is triggered on a fresh mock (the pattern-naming unordered kinds also by the second pattern of the method, behind a decoy pattern on another line); the message must render the call as Trait::method(args) from the generator's own Debug strings ('?' for non-Debug), name the pattern by location (file and the line the generator printed) and source text, and for guard-free single-alternative patterns list exactly the positions the interpreter rejects, each with the actual value.",
    note="only the parts named by the property are compared; ANSI codes stripped; pattern text compared in the documented short rendering with a literal-atoms fallback"),
 
  "C14": dict(engine="E1 tuple trees (harness/rt) + E2 compile-fail (harness/progen)", cat="exploration", ref="§4 C14",
@@ -93,7 +93,7 @@ CHECKS = {
    note="sub-trees are wrapped in the DynClause hook, nodes are production tuple impls; the 'return cannot be produced in the current feature set' case needs a no-mutex build and is only exercised by the thorough nostd variant when present"),
  "C20": dict(engine="E1 differential (harness/rt)", cat="exploration", ref="§4 C20",
    technique="differential property-based testing: generated scripts replayed by the mocked required methods vs a hand-written struct implementing the upstream trait with the same script, driven through upstream provided methods; enumerated wiring sweep",
-   text="Scripts of chunk sizes, short transfers, Interrupted/other errors and payloads are replayed through write_all, write_fmt, write_vectored, read_exact, read_to_end, read_to_string, read_vectored, read_line, read_until, rewind, stream_position, Hasher::write_u8..isize, format! with width/fill, DelayNs::delay_us/ms (incl. the overflow-splitting range), OutputPin::set_state, StatefulOutputPin::toggle, I2c read/write/write_read, SpiDevice read/write/transfer/transfer_in_place, SetDutyCycle provided methods: results, buffers and the sequence of required-method calls must equal those of the plain struct. 33 wiring probes configure one entry point at a time (embedded-hal neighbours of equal signature, SpiBus, std io provided methods mocked directly, Debug/Display, Error::source, tokio and futures-io poll_* methods and vectored defaults).",
+   text="On strict and on partial mocks: scripts of chunk sizes, short transfers, Interrupted/other errors and payloads are replayed through write_all, write_fmt, write_vectored, read_exact, read_to_end, read_to_string, read_vectored, read_line, read_until, rewind, stream_position, Hasher::write_u8..isize, format! with width/fill, DelayNs::delay_us/ms (incl. the overflow-splitting range), OutputPin::set_state, StatefulOutputPin::toggle, I2c read/write/write_read, SpiDevice read/write/transfer/transfer_in_place, SetDutyCycle provided methods: results, buffers and the sequence of required-method calls must equal those of the plain struct. 33 wiring probes configure one entry point at a time (embedded-hal neighbours of equal signature, SpiBus, std io provided methods mocked directly, Debug/Display, Error::source, tokio and futures-io poll_* methods and vectored defaults).",
    note="upstream provided methods are the reference on both sides; embedded-hal error paths are not scripted"),
 }
 
